@@ -597,6 +597,53 @@ fn c03_sequence(ctx: &mut Ctx, r: &mut Rng, outcomes: &[bool], ep_fixed: Option<
     let mut inj = 0u64;
     let mut sig = String::new();
     for (step, accept) in outcomes.iter().enumerate() {
+        // now and then a user-defined metric goes through the extension entry point `MetricBackend::send_metric`: the
+        // client hands its text to the sink verbatim, whatever it looks like (a service check, an event, a line of another
+        // protocol, nothing at all) - one string, Ok iff the sink took it
+        if r.chance(1, 10) {
+            use cadence::ext::MetricBackend;
+            struct Raw(String);
+            impl cadence::Metric for Raw {
+                fn as_metric_str(&self) -> &str {
+                    &self.0
+                }
+            }
+            let text = match r.below(7) {
+                0 => "_sc|my.check|0|#env:prod|m:all good".to_string(),
+                1 => "_e{5,4}:title|text|#tag".to_string(),
+                2 => "plain.graphite.path 42 1700000000".to_string(),
+                3 => String::new(),
+                4 => "no-colon-no-pipe".to_string(),
+                5 => "|:|".to_string(),
+                _ => cvh::strgen::dirty(r, 1, 24),
+            };
+            if r.chance(1, 3) {
+                sink.push_script(SinkOutcome::Refuse(io::ErrorKind::ConnectionReset, "raw-refused".into()));
+            }
+            let (b0, h0) = (sink.emit_count(), hlog.len());
+            let res = panics::guard(|| client.send_metric(&Raw(text.clone())));
+            let emitted = sink.emits_from(b0);
+            ctx.rep.obs("user_defined_metrics_sent_through_send_metric", 1);
+            let why = match &res {
+                Err(p) => Some(("no-panic", "send-metric-panicked", format!("send_metric panicked: {}", p))),
+                Ok(rr) => {
+                    if emitted.len() != 1 || emitted[0].0 != text {
+                        Some(("one-call-one-emit", "send-metric-not-verbatim", format!("send_metric({:?}) handed the sink {:?}", clip(&text, 80), emitted.iter().map(|e| clip(&e.0, 80)).collect::<Vec<_>>())))
+                    } else if rr.is_ok() != emitted[0].1 {
+                        Some(("ok-only-if-accepted", "send-metric-result", format!("send_metric({:?}) returned {:?} although the sink {} it", clip(&text, 80), rr.as_ref().map_err(|e| e.to_string()), if emitted[0].1 { "accepted" } else { "refused" })))
+                    } else if hlog.len() != h0 {
+                        Some(("handler-exactly-once-on-failure", "handler-on-nonquiet", "send_metric invoked the error handler".to_string()))
+                    } else {
+                        None
+                    }
+                }
+            };
+            if let Some((rule, class, detail)) = why {
+                ctx.violation("C03", rule, class, detail, jobj! {"text" => clip(&text, 200), "step" => step});
+                sink.log.lock().unwrap().script.clear();
+                continue;
+            }
+        }
         let (kind, tt) = ep_fixed.unwrap_or_else(|| *r.pick(&eps));
         // invalid values interleaved: they must not consume a scripted outcome
         let want_invalid = r.chance(1, 5);
@@ -803,6 +850,151 @@ fn c03_sequence(ctx: &mut Ctx, r: &mut Rng, outcomes: &[bool], ep_fixed: Option<
     }
 }
 
+
+/// Handler situations beyond one call at a time (C03): (a) failing quiet sends from several threads at the same moment
+/// through one client whose handler takes its time - every failure is reported, once; (b) a handler that itself reports
+/// through the same client with the quiet form while that nested send fails as well (bounded by its own depth counter) -
+/// the send returns, the nested failure is reported too; (c) a sink that panics now and then (the caller catches it):
+/// later calls on the same thread are judged by the sink's answer as before.
+fn c03_handler_situations(rep: &mut Report, args: &Args) {
+    use cadence::prelude::*;
+    use std::sync::atomic::{AtomicU64, Ordering as O};
+    let violation = |rep: &mut Report, rule: &str, class: &str, detail: String| {
+        rep.violation(Violation { property: "C03".into(), rule: rule.into(), class: class.into(), detail, replay_args: args.to_vec_with(&[]), trace: Json::Null });
+    };
+    // ---- (a) concurrent failing quiet sends, slow handler ----
+    struct AlwaysRefuse;
+    impl cadence::MetricSink for AlwaysRefuse {
+        fn emit(&self, m: &str) -> io::Result<usize> {
+            Err(io::Error::new(io::ErrorKind::NotConnected, m.to_string()))
+        }
+    }
+    let calls = std::sync::Arc::new(AtomicU64::new(0));
+    let c2 = calls.clone();
+    let client = std::sync::Arc::new(
+        StatsdClient::builder("conc", AlwaysRefuse)
+            .with_error_handler(move |_e| {
+                std::thread::sleep(std::time::Duration::from_micros(300));
+                c2.fetch_add(1, O::SeqCst);
+            })
+            .build(),
+    );
+    let (threads, per) = (6u64, 25u64);
+    let start = std::sync::Arc::new(std::sync::Barrier::new(threads as usize));
+    let joins: Vec<_> = (0..threads)
+        .map(|t| {
+            let (c, b) = (client.clone(), start.clone());
+            std::thread::spawn(move || {
+                b.wait();
+                for k in 0..per {
+                    c.count_with_tags("k", (t * 1000 + k) as i64).send();
+                }
+            })
+        })
+        .collect();
+    let died = joins.into_iter().map(|j| j.join()).filter(|r| r.is_err()).count();
+    rep.eval();
+    rep.obs("failing_quiet_sends_made_at_the_same_moment_from_several_threads", threads * per);
+    let got = calls.load(O::SeqCst);
+    if died > 0 {
+        violation(rep, "quiet-never-panics", "quiet-send-panicked", format!("{} of {} threads making failing quiet sends at the same moment died", died, threads));
+    } else if got != threads * per {
+        violation(rep, "handler-exactly-once-on-failure", "handler-count-on-failure", format!("{} failing quiet sends from {} threads at the same moment (handler takes 300 us): the handler was invoked {} times", threads * per, threads, got));
+    }
+    // ---- (b) a handler that reports through the same client while that send fails too ----
+    let slot: std::sync::Arc<std::sync::Mutex<Option<std::sync::Arc<StatsdClient>>>> = std::sync::Arc::new(std::sync::Mutex::new(None));
+    let depth = std::sync::Arc::new(AtomicU64::new(0));
+    let seen = std::sync::Arc::new(AtomicU64::new(0));
+    let (slot2, depth2, seen2) = (std::panic::AssertUnwindSafe(slot.clone()), depth.clone(), seen.clone());
+    let nested = std::sync::Arc::new(
+        StatsdClient::builder("nest", AlwaysRefuse)
+            .with_error_handler(move |_e| {
+                seen2.fetch_add(1, O::SeqCst);
+                if depth2.fetch_add(1, O::SeqCst) < 2 {
+                    let c = slot2.lock().unwrap_or_else(|e| e.into_inner()).clone();
+                    if let Some(c) = c {
+                        c.gauge_with_tags("errors.seen", 1u64).send();
+                    }
+                }
+                depth2.fetch_sub(1, O::SeqCst);
+            })
+            .build(),
+    );
+    *slot.lock().unwrap() = Some(nested.clone());
+    let (tx, rx) = std::sync::mpsc::channel::<u32>();
+    let n2 = nested.clone();
+    let worker = std::thread::spawn(move || {
+        let _ = tx.send(cvh::procmon::gettid());
+        n2.count_with_tags("k", 1i64).send();
+    });
+    let tid = rx.recv().unwrap_or(0);
+    // the send comes back, or its thread is found asleep with unchanged context-switch counters: it waits for itself
+    let t0 = std::time::Instant::now();
+    let mut last: Option<cvh::procmon::TaskStatus> = None;
+    let mut stable = 0u32;
+    let mut stuck = false;
+    while !worker.is_finished() {
+        std::thread::sleep(std::time::Duration::from_millis(10));
+        let st = cvh::procmon::task_status(tid);
+        if st.is_some() && st.as_ref().map(|s| s.state == 'S').unwrap_or(false) && st == last {
+            stable += 1;
+        } else {
+            stable = 0;
+            last = st;
+        }
+        if stable >= 150 {
+            stuck = true;
+            break;
+        }
+        if t0.elapsed().as_secs() > 100 {
+            rep.inconclusive("nested failing send from the handler: watchdog");
+            break;
+        }
+    }
+    rep.eval();
+    rep.obs("handlers_that_report_through_their_own_client_while_that_send_fails_too", 1);
+    if stuck {
+        violation(rep, "quiet-never-panics", "quiet-send-never-returns", "a quiet send whose error handler reports through the same client (and fails again) never returned: its thread is asleep with unchanged context-switch counters over 150 samples".into());
+        std::mem::forget(worker);
+    } else if worker.is_finished() {
+        if worker.join().is_err() {
+            violation(rep, "quiet-never-panics", "quiet-send-panicked", "a quiet send whose error handler reports through the same client panicked".into());
+        } else if seen.load(O::SeqCst) != 3 {
+            violation(rep, "handler-exactly-once-on-failure", "handler-count-on-failure", format!("a failing quiet send whose handler makes a failing quiet send (two levels deep): 3 failures, the handler was invoked {} times", seen.load(O::SeqCst)));
+        }
+    }
+    *slot.lock().unwrap() = None;
+    // ---- (c) a sink that panics now and then ----
+    struct Moody(AtomicU64);
+    impl cadence::MetricSink for Moody {
+        fn emit(&self, m: &str) -> io::Result<usize> {
+            let n = self.0.fetch_add(1, O::SeqCst);
+            if n < 40 && n % 2 == 0 {
+                panic!("scripted-sink-panic");
+            }
+            Ok(m.len())
+        }
+    }
+    let c = StatsdClient::from_sink("moody", Moody(AtomicU64::new(0)));
+    let mut bad = None;
+    for k in 0..60u64 {
+        let r = panics::guard(|| c.count("k", k as i64));
+        let expect_panic = k < 40 && k % 2 == 0;
+        match (r, expect_panic) {
+            (Err(_), true) | (Ok(Ok(_)), false) => {}
+            (other, _) => {
+                bad = Some(format!("call #{} on a client whose sink panicked on {} earlier calls of this thread (caught by the caller): {:?}, the sink {}", k, (k.min(40) + 1) / 2, other.map(|x| x.map(|_| "Ok").map_err(|e| e.to_string())), if expect_panic { "panics" } else { "accepts" }));
+                break;
+            }
+        }
+    }
+    rep.eval();
+    rep.obs("calls_after_caught_panics_of_the_sink_on_the_same_thread", 60);
+    if let Some(b) = bad {
+        violation(rep, "ok-only-if-accepted", "result-contradicts-sink", b);
+    }
+}
+
 fn run_c03(args: &Args) -> i32 {
     let mut rep = Report::new("fmt_driver", "C03");
     let seed = args.u64("seed", 1);
@@ -818,6 +1010,9 @@ fn run_c03(args: &Args) -> i32 {
         let mut ctx = Ctx { rep: &mut rep, args, case_seed: cs, replay: None };
         c03_sequence(&mut ctx, &mut Rng::new(cs), &pattern, ep, !args.flag("no-handler"));
         return rep.finish(args.get("out"));
+    }
+    if shard == 0 {
+        c03_handler_situations(&mut rep, args);
     }
     // (a) every accept/refuse pattern up to maxlen, for every entry point (sharded by entry point index)
     let eps = all_entry_points();
